@@ -197,7 +197,17 @@ func optionIniName(option *Option) string {
 		return name
 	}
 
-	return option.field.Name
+	if len(option.field.Name) != 0 {
+		return option.field.Name
+	}
+
+	// Options added with Group.AddOption have no struct field: use a name
+	// under which the reader finds the option again
+	if len(option.LongName) != 0 {
+		return option.LongNameWithNamespace()
+	}
+
+	return string(option.ShortName)
 }
 
 func writeGroupIni(cmd *Command, group *Group, namespace string, writer io.Writer, options IniOptions) {
@@ -234,7 +244,13 @@ func writeGroupIni(cmd *Command, group *Group, namespace string, writer io.Write
 		}
 
 		if !sectionwritten {
-			fmt.Fprintf(writer, "[%s]\n", sname)
+			// Options of the parser's own group, which is written first,
+			// belong to the global section, which has no header ("[]"
+			// cannot be read back)
+			if len(sname) != 0 || cmd.Group != group {
+				fmt.Fprintf(writer, "[%s]\n", sname)
+			}
+
 			sectionwritten = true
 		}
 
